@@ -90,7 +90,7 @@ func runC11(c *vf.Case) {
 	}
 
 	head, used, tail := 0, 0, 0 // plain integers, tail = (head+used) % size
-	model := make([]byte, size)  // expected physical content of used bytes (index = physical position)
+	model := make([]byte, size) // expected physical content of used bytes (index = physical position)
 	gen := r.U64()
 	genOff := 0
 	var lastClaim []byte
